@@ -96,7 +96,7 @@ class Run:
     # ---- S1/S2/S3 -------------------------------------------------------------
     def build(self):
         P = self.P
-        with coqrun.BuildLock():
+        if True:
             # S1 regenerate
             gen_ok = True
             if hasattr(P, "gen"):
@@ -109,7 +109,8 @@ class Run:
                     gen_ok = False
                     self.ob("gen:" + self.pid, False, "".join(traceback.format_exception_only(type(e), e)).strip())
             # S2 build
-            targets = [f"Props/{self.pid}.vo", "Corr/CorrLib.vo"] + [t for t in getattr(P, "EXTRA_TARGETS", [])]
+            targets = [f"Props/{self.pid}.vo", "Corr/CorrLib.vo"] + list(getattr(P, "MODEL_VOS", [f"Model/{self.pid}.vo"])) \
+                + [t for t in getattr(P, "EXTRA_TARGETS", [])]
             ok, log, cmd, dt = coqrun.make(targets)
             self.checker_cmds.append(f"cd {coqrun.COQ} && {cmd}")
             self.build_ok = ok
